@@ -115,7 +115,7 @@ extern "C" void harness() {
   __verif_cover("end");
 }
 #endif
-#if defined(H16C)
+#if defined(H16C) || defined(H16R)
 // rough-legalization passes (DensityLegalizer::run / refine / improve) with every float value unconstrained: whatever the
 // costs are, every cell of non-zero area stays in exactly one bin and the class's own invariants hold.
 static void invariantL(const DensityLegalizer& h, const std::vector<int>& dem) {
@@ -130,6 +130,7 @@ static void invariantL(const DensityLegalizer& h, const std::vector<int>& dem) {
     VASSERT(cnt == (dem[c] > 0 ? 1 : 0), "a cell of non-zero area is in exactly one bin, a zero-area cell in none");
   }
 }
+#if defined(H16C)
 extern "C" void harness() {
   // 6 x 2 bins of 5 x 5; the middle 2 x 2 block has no capacity (hole in the rows)
   std::vector<Rectangle> regs; regs.push_back(Rectangle(0, 10, 0, 10)); regs.push_back(Rectangle(20, 30, 0, 10));
@@ -160,6 +161,41 @@ extern "C" void harness() {
     leg.improve(); invariantL(leg, dem);
   }
   VASSERT(leg.levelX() == 0 && leg.levelY() == 0, "the legalizer ends at the finest level");
+  __verif_cover("end");
+}
+#endif
+#endif
+#if defined(H16R)
+// one reoptimization step of the rough legalizer on an arbitrary group of bins (including groups without any capacity) from an
+// arbitrary distribution of the cells: the union of the cells of the touched bins is redistributed, nothing is lost.
+extern "C" void harness() {
+  std::vector<Rectangle> regs; regs.push_back(Rectangle(0, 10, 0, 10)); regs.push_back(Rectangle(20, 30, 0, 10));
+  DensityGrid g(5, regs);       // 6 x 2 bins; columns 2 and 3 have no capacity
+  const int NCELL = 3;
+  std::vector<int> dem;
+  for (int c = 0; c < NCELL; ++c) { int d = __verif_nondet_int(1, 30); dem.push_back(d); }
+  DensityLegalizer::Parameters prm;
+  DensityLegalizer leg(g, dem, prm);
+  std::vector<float> tx, ty;
+  for (int c = 0; c < NCELL; ++c) { float a = __verif_nondet_float(-100.0f, 100.0f); float b = __verif_nondet_float(-100.0f, 100.0f); tx.push_back(a); ty.push_back(b); }
+  leg.updateCellTargetX(tx); leg.updateCellTargetY(ty);
+  leg.refineFully();
+  // arbitrary distribution of the cells over a 3 x 2 window of bins starting at column x0
+  int x0 = 1 + __verif_choice(2);     // windows 1..3 and 2..4: both contain the zero-capacity columns 2 and 3
+  std::vector<std::vector<std::vector<int> > > put(3, std::vector<std::vector<int> >(2));
+  for (int c = 0; c < NCELL; ++c) { int bx = (c == 0) ? 1 : __verif_choice(3); int by = (c == 0) ? 0 : __verif_choice(2); put[bx][by].push_back(c); }
+  for (int i = 0; i < leg.nbBinsX(); ++i) for (int j = 0; j < leg.nbBinsY(); ++j) leg.setBinCells(i, j, std::vector<int>());
+  for (int bx = 0; bx < 3; ++bx) for (int by = 0; by < 2; ++by) leg.setBinCells(x0 + bx, by, put[bx][by]);
+  invariantL(leg, dem);
+  __verif_cover("distributed");
+  __verif_havoc_int_range(0, 1 << 27);
+  int shape = __verif_choice(3);
+  std::vector<std::pair<int, int> > cand;
+  if (shape == 0) { cand.push_back(std::make_pair(x0, 0)); cand.push_back(std::make_pair(x0 + 1, 0)); cand.push_back(std::make_pair(x0, 1)); cand.push_back(std::make_pair(x0 + 1, 1)); }   // square
+  else if (shape == 1) { cand.push_back(std::make_pair(x0, 0)); cand.push_back(std::make_pair(x0 + 1, 0)); cand.push_back(std::make_pair(x0 + 2, 0)); }                                     // line
+  else { cand.push_back(std::make_pair(x0, 1)); cand.push_back(std::make_pair(x0 + 1, 0)); cand.push_back(std::make_pair(x0 + 2, 1)); }                                                      // zig-zag
+  leg.reoptimize(cand);
+  invariantL(leg, dem);
   __verif_cover("end");
 }
 #endif
